@@ -10,6 +10,7 @@ CONSTANTS
   MODFIX = FALSE
   COLFIX = TRUE
   WVFIX = FALSE
+  NTRYFIX = TRUE
   MAXIT = 10
 INVARIANT SameLattice
 INVARIANT WithvecOK
